@@ -19,14 +19,17 @@ MANIFEST = {
             "word, also with <unk>-mapped component scores; per-context normalisation; union n-gram set; single-model identity; "
             "over any field with an exponential-like E and instantiated at the reals (Real.rpow / logb); (2) code level - pass-1 "
             "record (longest suffix + from) with pass-2 charging = back-off recursion (LowerProb needs suffix closure, witness); "
-            "the stream recursion Recurse::SameContext/ExtendContext on ContextOrder-sorted streams consumes every record and "
-            "writes exactly the functional values (sorted streams proved to have the grouped shape); BackoffManager queue + "
+            "one generic stream recursion instantiated for pass 1 (HandleSuffix on SuffixOrder-sorted merged n-gram streams "
+            "writes exactly the longest-suffix probabilities and from levels) and pass 2 (Recurse::SameContext/ExtendContext on "
+            "ContextOrder-sorted streams consumes every record and writes exactly the functional values); sorted streams are "
+            "proved to have the grouped shape the recursion needs; BackoffManager queue + "
             "pass-3 zip: the back-off stream of each order is the SuffixOrder-sorted list of n-grams that get a record, aligned "
             "with the probability stream iff nothing is stuck and strictly shorter otherwise (the abort of finding K is derived; "
             "equal orders never hit it; machine-checked witness for mixed orders); BoundedSequenceEncoding round trip for any "
             "bounds / any number of 64-bit words, and exactly when it shifts by 64 (UB witness). "
-            "PARTIAL: pass 1's k-way stream merge, util::stream (sort, chains, RewindableStream), threads, MergeVocab's hash "
-            "order and float32/long-double rounding are tied only through the final ARPA output of bin/interpolate compared "
+            "PARTIAL: the k-way minimum selection among component streams in pass 1, BackoffManager's per-model bookkeeping, "
+            "util::stream (sort, chains, RewindableStream), threads, MergeVocab's hash order and float32/long-double rounding "
+            "are tied only through the final ARPA output of bin/interpolate compared "
             "with the compiled Lean driver on seeded tuples of lmplz --intermediate models (tolerance 1e-5), and the real "
             "bounded_sequence_encoding header in-process (ASan/UBSan).",
     "note": "Trusted: Lean kernel + propext/Classical.choice/Quot.sound; statements in lean/Properties/C13.lean; Mathlib's "
